@@ -1,6 +1,7 @@
 import GT.Model.Conditional
 import GT.Model.Integrals
 import GT.Model.LogCond
+import GT.Model.ApproxFeature   -- [approx-feature]
 /-!
 # Line-protocol driver: a register machine over the model at `Float`
 
@@ -22,6 +23,7 @@ inductive Val where
   | cond (R Dy Dx : Nat) (c : CondB R Dy Dx F)
   | condId (R D : Nat) (c : CondIdB R D F)
   | arr (shape : List Nat) (data : Array F)
+  | feat (Dy Dx Dk : Nat) (c : FeatCondB Dy Dx Dk F)   -- [approx-feature] LRBF/LSEM conditional (R = 1)
   | empty
 
 /-! ## hex / token helpers -/
@@ -143,6 +145,18 @@ def dumpVal : Val → String
       fld "Lambda" (d3 c.Lambda) ++ " " ++ fld "ln_det_Sigma" (d1 c.lnDetSigma)
   | .arr shape data =>
     "arr " ++ toString shape.length ++ (shape.foldl (fun s n => s ++ " " ++ toString n) "") ++ " " ++ fld "data" data
+  | .feat Dy Dx Dk c =>   -- [approx-feature]
+    let kb := c.kFunc.toB
+    let (kind, extra) := match c.kernel with
+      | .rbf mu ls => ("rbf", fld "mu" (d2 mu) ++ " " ++ fld "length_scale" (d2 ls))
+      | .lsem W w0 => ("lsem", fld "W" (d2 W) ++ " " ++ fld "w0" (d1 w0))
+    let kextra := match c.kFunc with
+      | .oneRank v g _ _ => " " ++ fld "k_v" (d2 v) ++ " " ++ fld "k_g" (d1 g)
+      | _ => ""
+    s!"feat {kind} 1 {Dy} {Dx} {Dk} " ++ fld "M" (d3 c.M) ++ " " ++ fld "b" (d2 c.b) ++ " " ++
+      fld "Sigma" (d3 c.Sigma) ++ " " ++ fld "Lambda" (d3 c.Lambda) ++ " " ++ fld "ln_det_Sigma" (d1 c.lnDetSigma) ++ " " ++
+      extra ++ " " ++ fld "k_Lambda" (d3 kb.Lambda) ++ " " ++ fld "k_nu" (d2 kb.nu) ++ " " ++
+      fld "k_ln_beta" (d1 kb.lnBeta) ++ kextra
   | .empty => "empty"
 
 /-! ## the machine -/
